@@ -21,6 +21,7 @@ EXPLANATION = (
     'every pointer/length/capacity method of every LimitedBuf impl, including overrides of the doc-hidden '
     'BufMut::parts hook, applies self.limit (or another limited method of self) on every return path. The '
     'numeric laws for all sizes are not decided (lengths are assumed <= u32::MAX as documented by the traits).'
+    ' Also decided: (R8 = C10.R10) wrapper completion hooks; (R9) iovec views: set_len stores new_len, skip advances iov_base by n and takes n off iov_len, len/ptr read the fields, both layers; (R10) Vec<u8>::set_init grows by exactly n, LimitedBuf::set_init takes n off the limit; (R11) LimitedBuf::as_iovecs[_mut] distributes the limit front to back; (R12) has_spare_capacity / is_empty of Vec<u8> and LimitedBuf agree with the lengths they summarise.'
 )
 NOT_DECIDED = "numeric laws for all sizes; buffers of 4 GiB and more"
 ASSUMPTIONS = ["buffer lengths fit in u32 as the traits document", "std Vec/String/slice accessors behave as documented"]
